@@ -7,6 +7,13 @@ import json, os, sys
 V = os.path.dirname(os.path.dirname(os.path.abspath(__file__)))
 sys.path.insert(0, V)
 from cxsa import facts, mir
+import hashlib
+
+
+def shape_of(f):
+    return "%d:%d:%s" % (len(f.locals), len(f.blocks), hashlib.sha1("|".join(f.locals).encode()).hexdigest()[:12])
+
+
 out = {}
 for cfg in sorted(facts.CONFIGS):
     try:
@@ -20,6 +27,6 @@ for cfg in sorted(facts.CONFIGS):
         for c in f.calls():
             if c.local:
                 callers.setdefault(c.name(), set()).add(f.path)
-    out[cfg] = {f.path: [f.raw.get("sig", ""), str(f.raw.get("vis") or "")[:10], sorted(callers.get(f.path, ())), sorted({c.name() for c in f.calls() if not c.name().startswith("core::panicking")})] for f in P.fns.values() if f.kind != "Closure"}
+    out[cfg] = {f.path: [f.raw.get("sig", ""), str(f.raw.get("vis") or "")[:10], sorted(callers.get(f.path, ())), sorted({c.name() for c in f.calls() if not c.name().startswith("core::panicking")}), shape_of(f), {str(k): v for k, v in sorted(f.dbg.items())}] for f in P.fns.values() if f.kind != "Closure"}
     print(cfg, len(out[cfg]))
 json.dump(out, open(os.path.join(V, "cxsa", "anchors.json"), "w"), indent=0, sort_keys=True)
